@@ -2,6 +2,7 @@
 #![allow(clippy::all)]
 
 pub mod backend;
+pub mod ck_cancel;
 pub mod ck_crash;
 pub mod ck_cycle;
 pub mod ck_engine;
